@@ -63,9 +63,25 @@ def parse_answer(ans):
     return d
 
 
+# second generation (harness/regen.py): the network is compiled, its OUTPUT is compiled again (and perhaps a third time); the
+# stream judged is the one the FINAL file carries for each Ethos-U operator of the first compilation, against the extents the final
+# file publishes - a stream that is passed through unchanged keeps its verdict, a file whose scratch tensors shrink does not
+GEN2_PROFILES = ["gen2:mixed", "gen2:cascade"]
+
+
 def run(ck, pid, n_quick, n_thorough, profiles, want=("stream",)):
     n = n_thorough if ck.thorough else n_quick
+    profiles = list(profiles or pipe_common.PROFILES)
+    if not ck.replay_arg:
+        # one compilation in seven is a second-generation one
+        k = max(1, len(profiles) // 6)
+        profiles = profiles + (GEN2_PROFILES * k)[:k]
     outs = pipe_common.run_corpus(ck, n, profiles=profiles, want=want)
+    for o in outs:
+        if o.get("gen_count", 1) > 1:
+            ck.count("second_generation_compilations")
+            ck.count("second_generation_streams_rejudged", len(o.get("stream_lines", [])))
+            ck.count("second_generation_streams_lost", o.get("gen1_streams_lost", 0))
     lines, owners = [], []
     for o in outs:
         ck.count("status_" + str(o.get("status", "harness-exception")))
